@@ -113,10 +113,12 @@ def check_c15(seed, total):
                 continue
             r = real[cid]
             lab = cases[cid]['labels']
-            if len(r) != len(lab) or 'err' in lab:
+            if 'err' in lab:
                 continue
-            impls = [s for l, s in zip(lab, r) if l != 'item']
-            if var == 'derive' or var.startswith('split'):
+            # the impls of the variant: everything but the re-emitted item (first segment of the attribute entry point);
+            # the model's labels are not needed for that, so a variant that generates fewer impls than expected is compared too
+            impls = r[1:] if cases[cid]['entry'] == 'attr' else list(r)
+            if var == 'derive' or var.startswith('split') or var.startswith('dsplit'):
                 compared['derive' if var == 'derive' else 'split'] += 1
                 if impls != impls_a:
                     bad.append(dict(relation='same impls via ' + ('#[derive(Ex)]' if var == 'derive' else 'a split list'),
